@@ -351,7 +351,10 @@ MANIFEST = dict(
          "cdataowninggc_dealloc, every reachable state has a duplicate-free free list disjoint from the "
          "duplicate-free set of live closure addresses; each allocation returns an address no live callback has; "
          "from creation to drop, calling a callback runs the function it was created with (user_data binding); "
-         "reuse is LIFO; the error path of ffi.callback() returns the closure. Tied to the code by random histories "
+         "reuse is LIFO; the error path of ffi.callback() returns the closure. The bound object is the infotuple "
+         "(signature + function), so 'own function with own signature' is one binding in the model; that calling "
+         "from C, through the cdata and through a cast pointer all reach that binding (libffi, cdata_call) is decided "
+         "by the correspondence run only (exact result values for three signatures). Tied to the code by random histories "
          "with thousands alive, calls through the cdata, a cast pointer and from C.",
     note="Trusted: Coq kernel; hand model C29/Model.v (differential tie); mmap freshness; libffi trampolines; "
          "gcc for the C helper; CPython refcounting/gc.collect(). Theorems closed under the global context.",
